@@ -97,6 +97,8 @@ THEOREMS = [
     # round 6: formerly pinned by form only, now generated definitions: the argument handling of Atoms.model and the
     # masses guard loop of System.model
     'C10.gen_resolveCall_eq_model', 'C10.gen_massesGuard_eq_model',
+    # round 6: DataModelDict.finds / python indexing / load('system_model', key=, index=) inside the model
+    'C10.finds_entries', 'C10.load_index', 'C10.load_default', 'C10.gen_load_eq_model',
 ]
 PARTIAL = {
     'length-1 vector through XML text': "uc.value_unit alone reads a shape-(1,) array back from XML text as a "
@@ -3007,6 +3009,72 @@ def search_legacy(ctx, n):
         restore_units()
 
 
+def correspond_finds(ctx, n):
+    """`DataModelDict.finds(key)` (what `load('system_model', key=, index=)`, `System(model=)`, `Box(model=)` … look
+    their entry up with) and python's `[index]` against the model's `DM.finds` / `pyIndex` on random nested records:
+    dictionaries, lists of dictionaries and values, the key at several depths, inside and next to matches."""
+    from DataModelDict import DataModelDict as DM
+    rng = random.Random(ctx.seed * 6700417 + 37)
+    keys = ['atomic-system', 'a', 'b', 'box', 'atoms', 'x']
+    lines, wants = [], []
+    for _ in range(n):
+        count = [0]
+        ids = {}
+
+        def new_id():
+            count[0] += 1
+            return count[0]
+
+        def build(depth):
+            """-> (python value, tokens)"""
+            r = rng.random()
+            if depth >= 4 or r < 0.3:
+                i = new_id()
+                return i, ['S', str(i)]
+            if r < 0.75:
+                i = new_id()
+                d = DM()
+                toks = []
+                ks = rng.sample(keys, rng.randint(0, 4))
+                for k in ks:
+                    if rng.random() < 0.35:
+                        items = [build(depth + 1) for _ in range(rng.randint(0, 3))]
+                        items = [(v, tk) for v, tk in items]
+                        d[k] = [v for v, _ in items]
+                        toks += [k, 'L', str(len(items))] + [x for _, tk in items for x in tk]
+                    else:
+                        v, tk = build(depth + 1)
+                        d[k] = v
+                        toks += [k] + tk
+                d['#id'] = i
+                ids[id(d)] = i
+                return d, ['N', str(i), str(len(ks))] + toks
+            i = new_id()
+            return i, ['S', str(i)]
+        root, toks = build(0)
+        while not isinstance(root, DM):
+            root, toks = build(0)
+        key = rng.choice(keys)
+        found = DM(root).finds(key) if False else root.finds(key)
+        got = [ids.get(id(v), v if isinstance(v, int) else -1) for v in found]
+        index = rng.choice([0, 0, 1, 2, -1, -2, 3, -3, 5, -5])
+        try:
+            pick = got[index]
+        except IndexError:
+            pick = None
+        lines.append('finds %s %d %s' % (key, index, ' '.join(toks)))
+        wants.append((got, pick))
+    for line, (got, pick), reply in zip(lines, wants, ctx.driver.ask_many(lines)):
+        ctx.stats.case('finds', line, nontrivial=len(got) > 1)
+        if reply.startswith('err:'):
+            ctx.disagree('finds', f'model refused {line[:200]}: {reply}', {'line': line})
+            continue
+        m = json.loads(reply)
+        if m['ids'] != got or m['pick'] != pick:
+            ctx.disagree('finds', f"DataModelDict.finds / [index] on [{line[:300]}]: implementation found {got} and took "
+                                  f"{pick}, model {m['ids']} and {m['pick']}", {'line': line})
+
+
 def _writable(c, rr):
     """was the object of the case constructed (so that there is something to serialise and to ask the model about)?"""
     if c['kind'] == 'ec':
@@ -3022,6 +3090,7 @@ def correspond(ctx):
     correspond_nest(ctx, ctx.n(150, 2000))
     correspond_fmt(ctx, ctx.n(120, 1000))
     correspond_legacy(ctx, ctx.n(150, 1500))
+    correspond_finds(ctx, ctx.n(200, 2000))
     runs = []
     classes = {}
     outside = 0
@@ -4731,6 +4800,47 @@ def _tr_elastic(tree):
     return L
 
 
+# ---- load('system_model') ---------------------------------------------------------------------------------------------
+
+def _tr_load(tree):
+    import ast
+    L = ["/-! ### `load('system_model', model, symbols=, key=, index=)`: which entry is read -/"]
+    fn = _find_def(tree, 'load')
+    ps, kw = _params(fn, skip_self=False)
+    _expect([p[0] for p in ps] == ['model', 'symbols', 'key', 'index'] and kw is None, 'load: parameters')
+    b = _body(fn)
+    tgt, val = _assign(b[0])
+    _expect(isinstance(tgt, ast.Name) and isinstance(val, ast.Call) and isinstance(val.func, ast.Attribute)
+            and _u_(val.func.value) == 'DM(model)' and [_u_(a) for a in val.args] == ['key'] and not val.keywords,
+            'load: lookup ' + _u_(b[0]))
+    var = tgt.id
+    lookup = val.func.attr
+    _expect(isinstance(b[1], ast.If) and _u_(b[1].test) == f'len({var}) == 0' and not b[1].orelse
+            and len(b[1].body) == 1 and isinstance(b[1].body[0], ast.Raise), 'load: nothing found')
+    _expect(isinstance(b[2], ast.Try) and [_u_(s) for s in b[2].body] == [f'{var} = {var}[index]']
+            and len(b[2].handlers) == 1 and isinstance(b[2].handlers[0].body[0], ast.Raise), 'load: indexing ' + _u_(b[2])[:60])
+    br = b[3]
+    t = br.test if isinstance(br, ast.If) else None
+    _expect(t is not None and isinstance(t, ast.Compare) and isinstance(t.ops[0], ast.In) and isinstance(t.left, ast.Constant)
+            and _u_(t.comparators[0]) == var and len(br.body) == 1, 'load: box / cell branch')
+    tgt, val = _assign(br.body[0])
+    _expect(isinstance(val, ast.Call) and _u_(val.func) == 'System' and not val.args, 'load: System(...)')
+    passes = {k.arg: k.value for k in val.keywords}
+    _expect(sorted(passes) == ['model', 'symbols'] and _u_(passes['symbols']) == 'symbols', 'load: keywords of System(...)')
+    m = passes['model']
+    _expect(isinstance(m, ast.Call) and _u_(m.func) == 'DM' and len(m.args) == 1 and isinstance(m.args[0], ast.List)
+            and len(m.args[0].elts) == 1 and isinstance(m.args[0].elts[0], ast.Tuple) and len(m.args[0].elts[0].elts) == 2
+            and isinstance(m.args[0].elts[0].elts[0], ast.Constant) and _u_(m.args[0].elts[0].elts[1]) == var,
+            'load: System(model=DM([(key, entry)]))')
+    L.append(f'def loadParams : List (String × Option String) := {_lparams(ps)}')
+    L.append('/-- `DM(model).<lookup>(key)`, then `[index]`; `<test key> in entry` selects `System(model=DM([(<wrap key>, '
+             'entry)]), symbols=symbols)`. -/')
+    L.append(f'def loadLookup : String := {_ls(lookup)}')
+    L.append(f'def loadBoxTest : String := {_ls(t.left.value)}')
+    L.append(f'def loadWrapKey : String := {_ls(m.args[0].elts[0].elts[0].value)}')
+    return L
+
+
 def translate():
     from ..translate import TranslationError
     try:
@@ -4746,7 +4856,8 @@ def _translate():
     import ast
     trees = {}
     for rel in ('atomman/unitconvert.py', 'atomman/core/Box.py', 'atomman/core/Atoms.py', 'atomman/core/System.py',
-                'atomman/core/ElasticConstants.py', 'atomman/dump/system_model/dump.py'):
+                'atomman/core/ElasticConstants.py', 'atomman/dump/system_model/dump.py',
+                'atomman/load/system_model/load.py'):
         try:
             trees[rel] = ast.parse(cm.source(rel))
         except SyntaxError as e:
@@ -4761,7 +4872,8 @@ def _translate():
     for part in (_tr_uc_model(trees['atomman/unitconvert.py']), _tr_value_unit(trees['atomman/unitconvert.py']),
                  _tr_box(trees['atomman/core/Box.py']), _tr_atoms(trees['atomman/core/Atoms.py']),
                  _tr_system(trees['atomman/core/System.py'], trees['atomman/dump/system_model/dump.py']),
-                 _tr_elastic(trees['atomman/core/ElasticConstants.py'])):
+                 _tr_elastic(trees['atomman/core/ElasticConstants.py']),
+                 _tr_load(trees['atomman/load/system_model/load.py'])):
         out += part + ['']
     out.append('end Atomman.Generated.ModelSource')
     return {'ModelSource': '\n'.join(out) + '\n'}
